@@ -1,0 +1,13 @@
+//go:build verif
+
+package state
+
+// Hooks for the verification harness in /verif (compiled only with -tags verif).
+
+// VerifClose closes the underlying LevelDB so that the state directory can be
+// reopened by a "restarted" node inside one test process.
+func (s *LevelDBState) VerifClose() error {
+	s.Lock()
+	defer s.Unlock()
+	return s.stateDb.Close()
+}
